@@ -23,12 +23,15 @@ def conformance(ctx, scen):
             tl += [dict(ev=e["ev"], k=e["k"], how=e["how"], gone=e["gone"]) for e in l["events"]]
         d = ctx.scratch.specdir("conf%d" % len(drift))
         vlib.write_ndjson(os.path.join(d, "trace.ndjson"), tl)
-        r = vlib.run_tlc(d, "ConnImplTrace", "ConnImplTrace.cfg", workers=1, heap_mb=3000, timeout=900)
+        try:
+            r = vlib.run_tlc(d, "ConnImplTrace", "ConnImplTrace.cfg", workers=1, heap_mb=3000, timeout=1500)
+        except vlib.Infra as e:
+            return dict(status="inconclusive", detail=str(e)[:200], scenarios=len(scen))
         states += r["distinct"]
-        if r["violated"] == "NotDone":
-            todo = []
-            break          # every line consumed: accepted
         m = re.search(r'"HIGHWATER",\s*(\d+)', r["out"])
+        if r["violated"] == "NotDone" or (m and not r["error"] and not r["violated"] and int(m.group(1)) == len(tl) + 1):
+            todo = []
+            break          # every line consumed: accepted (no invariant in the cfg: no error trace to print)
         if r["error"] or not m:
             return dict(status="inconclusive", detail=(r["error"] or "")[:200])
         hw = int(m.group(1))
@@ -68,7 +71,10 @@ def run(ctx):
         for ls in ex.map(one, range(nproc)):
             lines += ls
     bad, st = vlib.tlc_validate(ctx.scratch, "ConnTrace", "ConnTrace.cfg", [dict(l, events=[]) for l in lines], timeout=1800)
-    conf = conformance(ctx, [l for l in lines if l.get("conform") and l["via"] != "client+watchdog"])
+    cl = [l for l in lines if l.get("conform") and l["via"] != "client+watchdog"]
+    if len(cl) > 6000:   # an even sample: the cost of the nondeterministic search grows with the log
+        cl = cl[::(len(cl) + 5999) // 6000]
+    conf = conformance(ctx, cl)
     ctx.log("R2: %d schedules; R3: %d scenarios on real connections (12 harness processes), %d rejected" % (len(cases), len(lines), len(bad)))
     # any failing scenario is re-run alone (fresh process) before it is reported
     if bad and not ctx.replay:
